@@ -12,8 +12,11 @@ All three methods work *in place*; a call that raises may leave the receiver par
 the model therefore returns the new state of the receiver, the exception (if any) and whether the
 Python method returned the receiver (`return self`).
 
-`Obj.reverseSpec` is what the *property* requires of `reverse` on a periodic direction (flip and roll
-by `k+1`); `Obj.reverse` is what the code does (flip only).
+`Obj.reverseSpec` is what the *property* requires of `reverse` (control net re-indexed by
+`j ↦ (n + k - j) mod n`: flip, and roll by `k+1` on a periodic direction); `Obj.reverse`
+(Model/Object.lean) is what the code does (flip, then `np.roll` by `k+1` on a periodic direction) —
+the two are equal (`C06.reverse_eq_reverseSpec`).  `Obj.reverseFlipOnly` is the shape of the code
+before the fix 4fe14f6 (flip only), kept for the refutation theorem.
 -/
 
 namespace Splipy
@@ -64,18 +67,20 @@ def reverseSpec (o : Obj K) (dir : ℕ) : Obj K :=
   { o with bases := o.bases.set! dir b.reverse,
            cps := o.cps.reindexAxis dir n (fun j => (n + k1 - 1 - j) % n) }
 
-/-- `SplineObject.reverse(direction)` with the direction as spelled by the caller.
-    `specMode = true` replaces the code's control-point flip by `reverseSpec`. -/
-def reverseTok (o : Obj K) (d : DirTok) (specMode : Bool := false) : ReStep K :=
+/-- The pre-fix shape of `reverse` (before 4fe14f6): control points flipped only, no roll. -/
+def reverseFlipOnly (o : Obj K) (dir : ℕ) : Obj K :=
+  { o with bases := o.bases.set! dir (o.basis dir).reverse, cps := o.cps.flipAxis dir }
+
+/-- `SplineObject.reverse(direction)` with the direction as spelled by the caller. -/
+def reverseTok (o : Obj K) (d : DirTok) : ReStep K :=
   match checkDirection d o.pardimB with
   | .error e => { obj := o, err := some e, returnsSelf := false }
-  | .ok dir => { obj := if specMode then o.reverseSpec dir else o.reverse dir, err := none, returnsSelf := true }
+  | .ok dir => { obj := o.reverse dir, err := none, returnsSelf := true }
 
-/-- `SplineObject.swap(dir1, dir2)`: "silently passes for curves" — with a bare `return`, i.e. the
-    call returns `None`, not the receiver, and the direction arguments are not even validated.
-    `specMode = true` returns the receiver. -/
-def swapTok (o : Obj K) (d1 d2 : DirTok) (specMode : Bool := false) : ReStep K :=
-  if o.pardimB = 1 then { obj := o, err := none, returnsSelf := specMode } else
+/-- `SplineObject.swap(dir1, dir2)`: "silently passes for curves" — `return self` before the
+    direction arguments are validated. -/
+def swapTok (o : Obj K) (d1 d2 : DirTok) : ReStep K :=
+  if o.pardimB = 1 then { obj := o, err := none, returnsSelf := true } else
   match checkDirection d1 o.pardimB with
   | .error e => { obj := o, err := some e, returnsSelf := false }
   | .ok a =>
@@ -129,19 +134,17 @@ inductive ReOp (K : Type) where
   | reparamDir (d : DirTok) (args : List (List K))
   deriving Inhabited
 
-def ReOp.apply (specReverse specSwap : Bool) (o : Obj K) : ReOp K → ReStep K
-  | .reverse d => o.reverseTok d specReverse
-  | .swap d1 d2 => o.swapTok d1 d2 specSwap
+def ReOp.apply (o : Obj K) : ReOp K → ReStep K
+  | .reverse d => o.reverseTok d
+  | .swap d1 d2 => o.swapTok d1 d2
   | .reparam args => o.reparamArgs args
   | .reparamDir d args => o.reparamDirTok d args
 
-/-- Run a history on one receiver; the state after every call (also after a failed one).
-    `specReverse` / `specSwap` = follow the property instead of the code for the two known defects
-    (periodic `reverse` flips only; `swap` on a curve returns `None`). -/
-def runReHistory (specReverse specSwap : Bool) : Obj K → List (ReOp K) → List (ReStep K)
+/-- Run a history on one receiver; the state after every call (also after a failed one). -/
+def runReHistory : Obj K → List (ReOp K) → List (ReStep K)
   | _, [] => []
   | o, op :: rest =>
-    let st := op.apply specReverse specSwap o
-    st :: runReHistory specReverse specSwap st.obj rest
+    let st := op.apply o
+    st :: runReHistory st.obj rest
 
 end Splipy
